@@ -35,7 +35,7 @@ class Ob:
     def __init__(self, name, harness, srcs=(), defs=(), unwind=1, unwindset=(), replace=(), lib=None,
                  flags=(), drop_checks=(), witness=True, budget=None, tier='quick', functions=(),
                  bounds='', assumptions=(), stubs=(), mask=(), replay=True, mem_gb=12, inc=(),
-                 witness_defs=(), no_base_defs=False, solver='kissat', gen=None, nosimplify=False, memwords=64):
+                 witness_defs=(), no_base_defs=False, solver='kissat', gen=None, nosimplify=False, memwords=64, nobody_ok=()):
         self.name, self.harness, self.srcs, self.defs = name, harness, list(srcs), list(defs)
         self.unwind, self.unwindset, self.replace, self.lib = unwind, list(unwindset), list(replace), lib
         self.flags, self.drop_checks, self.witness, self.budget = list(flags), list(drop_checks), witness, budget
@@ -43,6 +43,7 @@ class Ob:
         self.assumptions, self.stubs, self.mask, self.replay = list(assumptions), list(stubs), list(mask), replay
         self.mem_gb, self.inc, self.witness_defs, self.no_base_defs, self.solver = mem_gb, list(inc), list(witness_defs), no_base_defs, solver
         self.gen = gen
+        self.nobody_ok = list(nobody_ok)   # functions deliberately left without a body (arbitrary result is the intended stub)
         self.memwords = memwords  # largest mem* size in 4-byte words (loop bound of the wrappers in vt_mem_impl.c)
         # cbmc 6.11's expression simplifier mis-reads `row[sym]` when row points at a constant row >= 1 of a top-level
         # multi-dimensional byte array (repro: findings/cbmc_2d_array_simplifier_bug.c); harnesses that read such tables
@@ -269,12 +270,27 @@ class Runner:
                 res['verdict'] = e['cProverStatus']
             if e.get('messageType') in ('ERROR',):
                 res['msgs'].append(e.get('messageText', ''))
+            if e.get('messageType') == 'WARNING':
+                mm = re.search(r'no body for (?:function|callee) (\S+)', e.get('messageText', ''))
+                if mm:
+                    res.setdefault('nobody', set()).add(mm.group(1))
             if e.get('messageType') == 'STATUS-MESSAGE':
                 t = e.get('messageText', '')
                 m = re.search(r'(\d+) variables, (\d+) clauses', t)
                 if m:
                     res['vars'], res['clauses'] = int(m.group(1)), int(m.group(2))
         return res
+
+    def copy_idiom(self, desc, sl):
+        """OPUS_COPY/OPUS_MOVE type-check idiom `0*((dst)-(src))`: subtracting pointers into different objects is standard-level
+        UB that no sanitizer can confirm and has no run-time effect; masked only on source lines that use those macros"""
+        if not (desc.startswith('same object violation') or desc.startswith('arithmetic overflow on signed -') or 'pointer relation' in desc):
+            return False
+        try:
+            txt = self.src_line(sl.get('file', ''), int(sl.get('line', '0')))
+        except ValueError:
+            return False
+        return bool(re.search(r'OPUS_COPY\s*\(|OPUS_MOVE\s*\(|silk_memmove|silk_memcpy', txt))
 
     # ---------- one obligation ----------
     def run_main(self, ob):
@@ -303,7 +319,7 @@ class Runner:
         r['vars'], r['clauses'] = pj.get('vars'), pj.get('clauses')
         masks = [re.compile(m) for m in GLOBAL_MASK + ob.mask]
         funcs = set()
-        fails, masked, unw = [], [], []
+        fails, masked, unw, nob = [], [], [], []
         for p in pj['results']:
             sl = p.get('sourceLocation', {})
             funcs.add(sl.get('function', ''))
@@ -314,16 +330,28 @@ class Runner:
                 desc = p.get('description', '')
                 ent = dict(property=p.get('property'), desc=desc, file=sl.get('file', ''), line=sl.get('line', ''),
                            function=sl.get('function', ''), status=p['status'])
-                if any(m.search(desc) for m in masks):
+                if any(m.search(desc) for m in masks) or self.copy_idiom(desc, sl):
                     masked.append(ent)
+                elif desc.startswith('no body for callee'):
+                    if desc.split()[-1] not in ob.nobody_ok:
+                        nob.append(desc.split()[-1])
                 elif 'unwinding assertion' in desc:
                     unw.append('%s (%s:%s)' % (desc, sl.get('function', ''), sl.get('line', '')))
                 else:
                     fails.append(ent)
         r['masked'] = masked
+        if nob:
+            r['status'] = 'error'
+            r['detail'] = 'functions reached without a body (cbmc returns arbitrary values): ' + ','.join(sorted(set(nob)))
+            return r
         if unw:
             r['status'] = 'error'
             r['detail'] = 'UNWIND-BOUND-TOO-SMALL: ' + '; '.join(unw[:6])
+            return r
+        nobody = sorted(f for f in (pj.get('nobody') or ()) if not f.startswith('nondet_') and f not in ob.nobody_ok)
+        if nobody:
+            r['status'] = 'error'
+            r['detail'] = 'functions reached without a body (cbmc would return arbitrary values): ' + ','.join(nobody)
             return r
         missing = [f for f in ob.functions if f not in funcs]
         if missing:
@@ -426,7 +454,7 @@ class Runner:
             if p['status'] != 'FAILURE' or 'trace' not in p:
                 continue
             desc = p.get('description', '')
-            if any(m.search(desc) for m in masks):
+            if any(m.search(desc) for m in masks) or self.copy_idiom(desc, p.get('sourceLocation', {})):
                 continue
             vals, human = [], []
             for s in p['trace']:
